@@ -28,6 +28,10 @@ class QR { public qubit q; public QR other; public constructor() -> QR { this.ot
 class QRS extends QR { public constructor() -> QRS { super(); } }
 class WB { @tracked public qubit h; public constructor(qubit p) -> WB { this.h = p; } }
 class NW { public NW other; public WB w; public constructor() -> NW { this.other = null; this.w = null; } }
+class Pb { public qubit q; public constructor() -> Pb = default; public destructor() -> void { echo("~Pb"); } }
+class Sl { public Pb item; public constructor() -> Sl { this.item = null; } public destructor() -> void { echo("~Sl"); } }
+class Sf { public Sl slot; public constructor() -> Sf { this.slot = null; } public destructor() -> void { echo("~Sf"); } }
+class Ry { public Sf shelf; public Ry self; public constructor() -> Ry { this.shelf = null; this.self = null; } }
 class J { public int k = 0; public constructor() -> J = default; public destructor() -> void { this.k = 1; this.k = 2; } }
 function mkqc(int i) -> QC { J j = new J(); return new QC(i); }
 function mktc(int i) -> TC { J j = new J(); return new TC(i); }
@@ -97,6 +101,12 @@ BODIES = {
     # was swept before or after the program's own reference went - what a handle copied out of it measures must not
     "live-qubit-owner-referenced-from-dropped-cycle": ["Q t = new Q();", "x(t.q);", "qubit hq = t.q;", "CX c1 = new CX();", "c1.peer = c1;", "c1.qown = t;", "c1 = null;", "echo(burst(2));", "t = null;", "echo(burst(2));", "echo(measure hq);"],
     "live-qubit-owner-referenced-from-dropped-cycle-measured": ["Q t = new Q();", "x(t.q);", "qubit hq = t.q;", "measure hq;", "CX c1 = new CX();", "c1.peer = c1;", "c1.qown = t;", "c1 = null;", "echo(burst(2));", "t = null;", "echo(burst(2));", "reset hq;", "echo(measure hq);"],
+    # (seed C11-6) the owner of a live qubit handle hangs below a chain of three holders whose top is cyclic garbage; the holders were allocated
+    # top-down (and, in the second program, bottom-up): the whole chain stays alive as long as the handle does, under every schedule
+    "qubit-handle-below-holder-chain-top-down": ["Ry r = new Ry();", "Sf s = new Sf();", "Sl t = new Sl();", "Pb p = new Pb();", "r.shelf = s;", "s.slot = t;", "t.item = p;", "r.self = r;", "qubit hq = p.q;", "x(hq);",
+                                                 "p = null;", "t = null;", "s = null;", "r = null;", "echo(\"dropped\");", "echo(burst(2));", "echo(measure hq);", "echo(\"end\");"],
+    "qubit-handle-below-holder-chain-bottom-up": ["Pb p = new Pb();", "Sl t = new Sl();", "Sf s = new Sf();", "Ry r = new Ry();", "r.shelf = s;", "s.slot = t;", "t.item = p;", "r.self = r;", "qubit hq = p.q;", "x(hq);",
+                                                  "p = null;", "t = null;", "s = null;", "r = null;", "echo(\"dropped\");", "echo(burst(2));", "echo(measure hq);", "echo(\"end\");"],
     "pressure": ["echo(burst(18));", "N k = new N(9);", "echo(burst(18));", "echo(k.id);"],
     "pressure-args": ["echo(link(mk(burst(18)), mk(burst(18))));"],
     "list": ["N h = chain(5);", "echo(len(h));", "echo(burst(2));", "echo(len(h));", "h.next.next = null;", "echo(burst(2));", "echo(len(h));"],
